@@ -118,17 +118,31 @@ fn opt_res<T>(out: &mut String, key: &str, r: Option<io::Result<T>>, f: impl FnO
     }
 }
 
-/// Iterates `it` up to the cap, calling `f` for every item; appends the non-termination marker when the
-/// cap is hit. Returns the number of items seen.
+/// Number of further items drained (without rendering) once the cap is reached, to tell a long but finite
+/// count-driven iterator (16-bit counts) from one that does not end.
+pub const DRAIN: usize = 65_536;
+pub const LONG: &str = "long-iterator=";
+
+/// Iterates `it` up to the cap, calling `f` for every item. Past the cap up to [`DRAIN`] further items are
+/// drained silently: if the iterator ends there, ` long-iterator=<type>` is appended (not a verdict), else the
+/// non-termination marker. Returns the number of items rendered.
 pub fn capped<I: Iterator>(out: &mut String, it: I, lim: &Limits, ty: &str, mut f: impl FnMut(&mut String, I::Item)) -> usize {
     let mut n = 0;
+    let mut drained = 0usize;
     for x in it {
         if n >= lim.cap {
-            let _ = write!(out, " {NONTERM}{ty}");
-            return n;
+            drained += 1;
+            if drained > DRAIN {
+                let _ = write!(out, " {NONTERM}{ty}");
+                return n;
+            }
+            continue;
         }
         f(out, x);
         n += 1;
+    }
+    if drained > 0 {
+        let _ = write!(out, " {LONG}{ty}(+{drained})");
     }
     n
 }
@@ -264,10 +278,15 @@ pub fn render_alignment_record(h: &sam::Header, r: &dyn sam::alignment::Record, 
         let _ = write!(out, " seq#{n}{}=", if s.is_empty() { "e" } else { "" });
         let mut bases = Vec::new();
         let mut over = false;
+        let mut drained = 0usize;
         for b in s.iter() {
             if bases.len() >= lim.cap {
-                over = true;
-                break;
+                drained += 1;
+                if drained > DRAIN {
+                    over = true;
+                    break;
+                }
+                continue;
             }
             bases.push(b);
         }
